@@ -23,7 +23,7 @@ def _seed_type():
 
 
 fields("Task", minmax="TaskType", objective_weights="opt[list[float]]", seed=_seed_type(), variables="list[Variable]",
-       space_dimension="int")
+       space_dimension="int", data="opt[any]", _EPS="float")
 fields("OptimizationAbstract", _config="opt[BaseOptimizationConfig]", _task="opt[Task]", _population="list[Agent]",
        _best_agent="opt[Agent]", _worst_agent="opt[Agent]", _current_cycle="int", _errors="list[float]",
        _error_diffs="list[float]", _mode="ModeSolver", _workers="int", _debug="bool")
